@@ -356,6 +356,11 @@ func genC03(o *Out, r *rand.Rand, thorough bool) {
 		if pieceCount(b) <= 6 {
 			d++
 		}
+		if b.Result().Outcome == board.Draw {
+			// Minimax returns 0 at a root that is already drawn; AlphaBeta always searches the root (C05): not comparable
+			o.Count("repo-minimax:drawn-root-skipped")
+			continue
+		}
 		ab, _ := searchCfg("full-static")
 		mm := search.Minimax{Eval: search.Leaf{Eval: eval.Material{}}}
 		_, s1, _, _ := ab.Search(context.Background(), &search.Context{TT: search.NoTranspositionTable{}}, b.Fork(), d)
